@@ -193,8 +193,13 @@ func (p *pool) peers() []peer.ID {
 
 // all returns every peer the pool keeps track of, including removed peers that are not cleaned up yet.
 func (p *pool) all() []peer.ID {
+	verifEv(p, "all.enter", "")
 	p.m.RLock()
 	defer p.m.RUnlock()
+	verifEv(p, "all.rlocked", "")
+	defer verifEv(p, "all.runlock", "")
+
+	verifEv(p, "all.read", "")
 	return append([]peer.ID(nil), p.peersList...)
 }
 
